@@ -98,6 +98,7 @@ func main() {
 	suffix := flag.String("contract", "", "contract variant suffix: use vc_<Func>__<variant>_* instead of vc_<Func>_*")
 	second := flag.Bool("second", false, "thorough tier: re-check every discharged obligation with a second solver")
 	noReplay := flag.Bool("noreplay", false, "do not concretise models")
+	jobs := flag.Int("jobs", 8, "obligations discharged in parallel")
 	flag.Parse()
 	t0 := time.Now()
 	res := UnitJSON{Pkg: *pkgPat, Func: *fname, Set: *setv, ByBackend: map[string]int{}, Bounded: *bound}
@@ -215,7 +216,7 @@ func main() {
 	res.Paths = e.paths
 	// discharge
 	var wg sync.WaitGroup
-	sem := make(chan struct{}, 16)
+	sem := make(chan struct{}, *jobs)
 	tmo := time.Duration(*timeout) * time.Second
 	for k, o := range e.obls {
 		if o.Goal.IsTrue() {
@@ -354,42 +355,50 @@ func dischargeOne(as []*Term, script string, tmo time.Duration) Result {
 	return dischargeWith(as, script, tmo, []string{"z3-new", "cvc5", "z3"})
 }
 
-// dischargeWith tries, in order: hard arithmetic abstracted to uninterpreted functions (only unsat is
-// conclusive), quantified hypotheses dropped (only unsat is conclusive), then the precise query.
+// dischargeWith: stage A races the precise query on the first solver against the second solver on the query
+// with quantified hypotheses dropped (a sound weakening: only unsat is conclusive; the instances made at reads
+// remain) — measured: cvc5 decides in about a second what z3 needs 10-20 s for. Stage B adds the arithmetic
+// abstraction (div/rem/mul as uninterpreted functions with range facts; only unsat conclusive), the precise
+// query on the remaining solvers.
 func dischargeWith(as []*Term, script string, tmo time.Duration, solvers []string) Result {
-	fast := solvers
-	if len(fast) > 2 {
-		fast = fast[:2]
-	}
-	var spent time.Duration
-	if abs := ScriptAbs(as); abs != "" {
-		r := Race(abs, 5*time.Second, fast)
-		spent += r.Dur
-		if r.Status == "unsat" {
-			r.Solver += "+uf-abstraction"
-			return r
-		}
-	}
 	hasQ := false
 	var noQ []*Term
 	for _, a := range as {
-		if strings.Contains(a.String(), "(forall ") && a != as[len(as)-1] {
+		if a.hasQ && a != as[len(as)-1] {
 			hasQ = true
 			continue
 		}
 		noQ = append(noQ, a)
 	}
-	if hasQ {
-		r := Race(Script(noQ, false), 10*time.Second, fast)
-		spent += r.Dur
-		if r.Status == "unsat" {
-			r.Solver += "+no-quantifiers"
-			return r
+	tasks := []solverTask{{solver: solvers[0], script: script}}
+	if len(solvers) > 1 {
+		if hasQ {
+			tasks = append(tasks, solverTask{solver: solvers[1], script: Script(noQ, false), tag: "+no-quantifiers", onlyUnsat: true})
+		} else {
+			tasks = append(tasks, solverTask{solver: solvers[1], script: script})
 		}
 	}
-	r := Race(script, tmo, solvers)
-	r.Dur += spent
-	return r
+	first := tmo / 2
+	r := raceTasks(tasks, first)
+	if r.Status == "unsat" || r.Status == "sat" {
+		return r
+	}
+	var tb []solverTask
+	if abs := ScriptAbs(as); abs != "" {
+		tb = append(tb, solverTask{solver: solvers[0], script: abs, tag: "+uf-abstraction", onlyUnsat: true})
+	}
+	if hasQ && len(solvers) > 1 {
+		tb = append(tb, solverTask{solver: solvers[1], script: script})
+	}
+	if len(solvers) > 2 {
+		tb = append(tb, solverTask{solver: solvers[2], script: script})
+	}
+	if len(tb) == 0 {
+		return r
+	}
+	r2 := raceTasks(tb, tmo-first)
+	r2.Dur += r.Dur
+	return r2
 }
 
 func (e *Engine) listLoops(fn *ssa.Function) {
